@@ -823,7 +823,7 @@ func inFlightProbe(layers []layerSpec) string {
 		close(release)
 		<-done
 		return ""
-	case <-time.After(1500 * time.Millisecond):
+	case <-time.After(4 * time.Second):
 		held = true
 	}
 	close(release)
@@ -831,7 +831,7 @@ func inFlightProbe(layers []layerSpec) string {
 	if held {
 		select {
 		case <-entered:
-			msg = "in-flight probe: while the handler was serving one request, the request of another client was held back (not handed to the handler within 1.5 s) and reached the handler only once the first had finished: the stack serialises requests"
+			msg = "in-flight probe: while the handler was serving one request, the request of another client was held back (not handed to the handler within 4 s) and reached the handler only once the first had finished: the stack serialises requests"
 		case <-time.After(3 * time.Second):
 			msg = "in-flight probe: while the handler was serving one request, the request of another client was neither handed to the handler nor answered, even after the first had finished"
 		}
